@@ -15,6 +15,10 @@ use std::task::{RawWaker, RawWakerVTable, Waker};
 /// argument of core's `atomic_load::<T, false>` — so separate scalar statics are unsafe to write.)
 pub(crate) struct Env {
     pub magic: u64,
+    /// != 0: `Shared::wake_blocked_futures` is replaced by its frame contract (counts the call, touches nothing);
+    /// the function itself is proved by the c03.blocked.* obligations
+    pub wbf_skip: u32,
+    pub wbf_calls: u32,
     /// io_uring_params as 30 u32 words (120 bytes)
     pub setup_in: [u32; 30],
     /// munmap of something not live / wrong length
@@ -68,6 +72,8 @@ pub(crate) struct Env {
 }
 pub(crate) static mut E: Env = Env {
     magic: 0xA10A_10A1_5EED_F00D,
+    wbf_skip: 0,
+    wbf_calls: 0,
     setup_in: [0; 30],
     munmap_bad: 0,
     wakes: [0; NWAKERS],
@@ -181,6 +187,16 @@ pub(crate) fn on_lock(addr: usize) {
             E.lock_kind = LK_NONE;
         }
     }
+}
+
+pub(crate) fn on_wake_blocked_futures() -> bool {
+    unsafe {
+        E.wbf_calls += 1;
+        E.wbf_skip != 0
+    }
+}
+pub(crate) fn skip_wake_blocked_futures() {
+    unsafe { E.wbf_skip = 1 };
 }
 
 // ---------------------------------------------------------------- kernel model
@@ -302,13 +318,15 @@ pub(crate) unsafe fn sys_register(fd: i32, opcode: u32, arg: *const libc::c_void
             if !arg.is_null() && E.reg_copy != 0 {
                 let n = E.reg_copy / 8;
                 let src = arg as *const u64;
-                let mut k = 0;
-                while k < 8 {
-                    if k < n {
-                        words[k] = src.add(k).read_unaligned();
-                    }
-                    k += 1;
-                }
+                // straight-line copy (no harness-side loops, see total_wakes)
+                if n > 0 { words[0] = src.add(0).read_unaligned(); }
+                if n > 1 { words[1] = src.add(1).read_unaligned(); }
+                if n > 2 { words[2] = src.add(2).read_unaligned(); }
+                if n > 3 { words[3] = src.add(3).read_unaligned(); }
+                if n > 4 { words[4] = src.add(4).read_unaligned(); }
+                if n > 5 { words[5] = src.add(5).read_unaligned(); }
+                if n > 6 { words[6] = src.add(6).read_unaligned(); }
+                if n > 7 { words[7] = src.add(7).read_unaligned(); }
             }
             E.regs[i] = RegisterCall { fd, opcode, arg: arg as usize, nr_args, words };
             if E.reg_ret[i] == -1 {
